@@ -2,7 +2,7 @@
     ExtrOcamlBasic only (its Extract Inductive for bool, option, unit, list, prod, sumbool,
     sumor, comparison as shipped); no Extract Constant; nat stays Peano. *)
 From Coq Require Extraction ExtrOcamlBasic.
-From Tephra Require Import Base Text Metrics Span Source.
+From Tephra Require Import Base Text Metrics Span Source Scanner CLexer Ctx Grammar Run.
 Extraction Language OCaml.
 Set Extraction KeepSingleton.
 Extraction "model.ml"
@@ -14,4 +14,9 @@ Extraction "model.ml"
   src_new src_end_position full_span src_start_position src_next_position src_previous_position src_is_line_break
   src_line_end_position src_line_start_position src_previous_line_end_position
   src_next_line_start_position src_position_after_str src_position_after_chars_matching
-  src_next_position_after_chars_matching clipped widen_to_line split_lines_of sl_next sl_len.
+  src_next_position_after_chars_matching clipped widen_to_line split_lines_of sl_next sl_len
+  scan fkeep tok_eqb kind_eqb
+  c_new c_with_metrics c_with_le c_with_tab c_with_filter c_set_filter c_start_sublex c_peek c_next
+  c_next_if c_next_if_eq c_advance_to c_advance_up_to c_drain c_token_span c_parse_span c_cursor_pos
+  c_peek_token_span c_at_end fuel_of
+  ctx_new run_trees ctx_pushed run mkstore set_met.
